@@ -121,6 +121,69 @@ def _after(rec, m, refs, U, t):
         rec('after:' + e.what, e.what, dict(task=t), **e.detail)
 
 
+def task_mid(t):
+    """One pair plus a third variable that may sit BETWEEN the pair (non-adjacent pairs for
+    image): all of F(3) as trans, every order, both rename directions, every allowed qvars."""
+    _, oi, si, ns, focus = t
+    rep = run.Report()
+    rec = sweep.Rec(rep)
+    x, xp = names_pairs(1)
+    names = (x, 'c_', xp)
+    U, order, m, refs, inv, b = _mgr(names, oi)
+    den = O.Den(m, U)
+    fs = sorted(refs)
+    sets = sorted(set(U.all_functions((x, 'c_'))) | set(U.all_functions((xp, 'c_'))))
+    mine = sweep.shard(fs, ns)[si]
+    cnt = nt = 0
+    for ft in mine:
+        if focus is not None and ft != focus:
+            continue
+        ut = refs[ft]
+        for fs_ in sets:
+            us = refs[fs_]
+            for q in sweep.subsets(names):
+                for fa in (False, True):
+                    for rename in ({x: xp}, {xp: x}):
+                        case = dict(task=t[:-1] + (ft,), trans=U.fmt(ft), set=U.fmt(fs_),
+                                    rename=rename, qvars=list(q), forall=fa,
+                                    order=sweep.order_str(order))
+                        try:
+                            calls = []
+                            if pre_allowed(U, order, fs_, rename):
+                                calls.append(('preimage', _bdd.preimage(
+                                    ut, us, dict(rename), set(q), m, fa),
+                                    expected_pre(U, ft, fs_, rename, q, fa)))
+                            if img_allowed(U, ft, fs_, rename, q):
+                                calls.append(('image', _bdd.image(
+                                    ut, us, dict(rename), set(q), m, fa),
+                                    expected_img(U, ft, fs_, rename, q, fa)))
+                            for how, r, want in calls:
+                                cnt += 1
+                                got = inv.get(r)
+                                if got is None:
+                                    got = den(r)
+                                    if got == want:
+                                        rec('%s-mid-noncanonical' % how,
+                                            '%s returned a reference that is not the canonical '
+                                            'one for its function' % how, case)
+                                if got != want:
+                                    rec('%s-mid' % how, '%s denotes the wrong function' % how,
+                                        case, got=U.fmt(got), want=U.fmt(want))
+                                if ft not in (0, U.full) and fs_ not in (0, U.full):
+                                    nt += 1
+                        except Violation as e:
+                            rec('mid-broken:' + e.what, e.what, case)
+                        except Exception as e:  # noqa
+                            rec('mid-exception:' + type(e).__name__, 'raised %r' % (e,), case)
+    rep.add('evaluations', cnt)
+    rep.add('nontrivial', nt)
+    _after(rec, m, refs, U, t)
+    if si == 0 and focus is None:
+        rep.sample(dict(kind='pair with a variable in between', order=sweep.order_str(order),
+                        trans=U.fmt(fs[100]), set=U.fmt(sets[5]), rename={xp: x}, qvars=[x]))
+    return rep
+
+
 def task_t1(t):
     """Two pairs, canonical relational product; trans over ALL of F(4) x 16 sets."""
     _, kind, oi, si, ns, focus = t
@@ -161,6 +224,9 @@ def task_t1(t):
                     got = inv.get(r)
                     if got is None:
                         got = den(r)
+                        rec('%s-2pairs-noncanonical' % kind,
+                            '%s returned a reference that is not the canonical one' % kind,
+                            dict(task=t[:-1] + (ft,), trans=U.fmt(ft), set=U.fmt(fs_)))
                     want = U.quantify(ft & fsr, q, fa)
                     if kind == 'img':
                         want = U.rename(want, rename)
@@ -248,6 +314,9 @@ def task_t2(t):
                             got = inv.get(r)
                             if got is None:
                                 got = den(r)
+                                rec('%s-2pairs-noncanonical' % kind,
+                                    '%s returned a reference that is not the canonical one'
+                                    % kind, case)
                             if got != want:
                                 rec('%s-2pairs' % kind, '%s denotes the wrong function' % kind,
                                     case, got=U.fmt(got), want=U.fmt(want))
@@ -431,7 +500,7 @@ def task_three(t):
     return rep
 
 
-TASKS = dict(one=task_one, t1=task_t1, t2=task_t2, t3=task_t3, three=task_three)
+TASKS = dict(one=task_one, t1=task_t1, t2=task_t2, t3=task_t3, three=task_three, mid=task_mid)
 
 
 def dispatch(t):
@@ -446,6 +515,9 @@ def _adjacent_orders4():
 
 def plan(tier):
     ts = [('one', 0, None), ('one', 1, None)]
+    for oi in range(6):
+        for si in range(4 if tier == 'quick' else 2):
+            ts.append(('mid', oi, si, 8 if tier == 'quick' else 2, None))
     adj = _adjacent_orders4()
     if tier == 'quick':
         # canonical product: all of F(4) x 16 sets on two adjacent-pair orders (pre) and one
